@@ -12,6 +12,9 @@ package service
 // are never overwritten.
 
 //@ property C02 roots (*service).processPublish, (*service).processIncoming, (*service).processAcked, (*service).onPublish
+//@ property C12 roots (*service).publish, (*service).processIncoming, (*service).processAcked
+//@ property C19 roots (*service).processIncoming, (*service).receiver, (timeoutReader).Read
+//@ property C01 roots (*service).onPublish
 //@ property C17 roots (*service).writeMessage, (*stat).increment, (*buffer).WriteTo, (*buffer).ReadPeek, (*buffer).ReadCommit, (*buffer).ReadFrom
 //@ property C17 callers (*buffer).Write, (*buffer).WriteWait, (*buffer).WriteCommit
 //@ property C15 roots (*buffer).Close, (*buffer).Read, (*buffer).ReadPeek, (*buffer).ReadWait, (*buffer).ReadCommit, (*buffer).Write, (*buffer).WriteWait, (*buffer).WriteCommit, (*buffer).waitForWriteSpace, (*buffer).ReadFrom, (*buffer).WriteTo
@@ -557,6 +560,7 @@ func vspecCovered(x int64, start int64, c int64, size int64) bool {
 //@   requires vdefOut(svc) && msg != nil && len(msg.mtypeflags) == 1 && vdefPubMsg(svc, msg) && svc.sess != nil && vdefQ(svc.sess.Pub1ack) && vdefQ(svc.sess.Pub2out)
 //@   rely modifies svc.out.pseq.cursor, svc.out.pseq.gate, svc.out.cseq.cursor, svc.out.done, svc.out.pwait, elems(svc.out.buf)
 //@   rely ensures vdefRing(svc.out) && arr(svc.outtmp) != arr(svc.out.buf)
+//@   atcall (*service).writeMessage requires[C12,known=KF-C12-1:registered-before-sent] message.vspecQoSOf(msg.mtypeflags[0]) == 0 || gfield(svc.sess.Pub1ack, "nwait")+gfield(svc.sess.Pub2out, "nwait") == old(gfield(svc.sess.Pub1ack, "nwait")+gfield(svc.sess.Pub2out, "nwait"))+1
 //@   ensures[C12:sent] err == nil && !(old(message.vspecQoSOf(msg.mtypeflags[0])) == 0 && onComplete != nil) ==> gfield(svc, "n3") == old(gfield(svc, "n3"))+1
 //@   ensures[C12:registered] err == nil && old(message.vspecQoSOf(msg.mtypeflags[0])) == 1 ==> gfield(svc.sess.Pub1ack, "nwait") == old(gfield(svc.sess.Pub1ack, "nwait"))+1 && gfield(svc.sess.Pub1ack, "lastwait") == msg
 //@   ensures[C12:registered] err == nil && old(message.vspecQoSOf(msg.mtypeflags[0])) == 2 ==> gfield(svc.sess.Pub2out, "nwait") == old(gfield(svc.sess.Pub2out, "nwait"))+1 && gfield(svc.sess.Pub2out, "lastwait") == msg
@@ -592,3 +596,46 @@ func vspecCovered(x int64, start int64, c int64, size int64) bool {
 //@   ensures[C07:never-silent] gfield(p, "n11") == old(gfield(p, "n11"))+1 || gfield(p, "wfail") == old(gfield(p, "wfail"))+1
 //@   ensures[inv] vdefProc(p)
 //@   modifies modset(Out), modset(TopicStore), modset(SessTopics), heap("GF.nunsub"), heap("GF.unsubarr"), heap("GF.unsuboff"), heap("GF.unsublen"), heap("GF.nlog"), gfield(p, "n11"), gfield(p, "id11")
+
+// ---------------------------------------------------------------- keep-alive (C19)
+// Every read from the socket is preceded by re-arming the read deadline to now + d (ghost: armed).
+//@ extern time.Now
+//@   pure
+//@ extern (time.Time).Add
+//@   pure
+//@ iface netReader.SetReadDeadline
+//@   trusted
+//@   results err
+//@   ensures[ghostdef-arm] err == nil ==> gfield(self, "armed") == 1
+//@   modifies gfield(self, "armed")
+//@ iface netReader.Read
+//@   trusted
+//@   results n, err
+//@   flag args self, p
+//@   flag yield
+//@   ensures 0 <= n && n <= len(p)
+//@   ensures[ghostdef-arm] gfield(self, "armed") == 0
+//@   modifies elems(p), gfield(self, "armed")
+//@ func (timeoutReader).Read
+//@   results n, err
+//@   requires r.conn != nil
+//@   atcall netReader.Read requires[C19:rearmed] gfield(r.conn, "armed") == 1
+//@   ensures 0 <= n && n <= len(b)
+//@   modifies elems(b), gfield(r.conn, "armed")
+//@ extern (*sync.WaitGroup).Done
+//@   pure
+//@ func isEOF
+//@   trusted
+//@   pure
+//@ closure (*service).receiver$1
+//@   trusted
+// receiver: the socket is read through a timeoutReader whose deadline is the negotiated keep-alive plus a fifth
+// (K <= d <= 1.5 K), so a client silent for that long fails the read and the connection is torn down.
+//@ func (*service).receiver
+//@   flag noframe
+//@   requires svc.in != nil && vdefRingB(svc.in) && gfield(svc.in, "guard") == 0 && !held(ifaceval(svc.in.pcond.L, *sync.Mutex)) && !held(ifaceval(svc.in.ccond.L, *sync.Mutex)) && 0 <= svc.keepAlive && svc.keepAlive <= 65535
+//@   rely modifies svc.in.cseq.cursor, svc.in.done
+//@   rely ensures svc.in.cseq.cursor >= old(svc.in.cseq.cursor) && svc.in.cseq.cursor <= svc.in.pseq.cursor && (old(svc.in.done) == 1 ==> svc.in.done == 1)
+//@   atcall (*buffer).ReadFrom requires[C19:deadline] typeis(r, timeoutReader) && int64(ifaceval(r, timeoutReader).d) == int64(svc.keepAlive)*1000000000 + int64(svc.keepAlive)*1000000000/5
+//@   loop 1 invariant vdefRing(svc.in) && heldsame() && gfield(svc.in, "guard") == 0
+//@   modifies svc.in.pseq.gate, svc.in.pwait, svc.in.pseq.cursor, svc.in.done, elems(svc.in.buf), heap("GF.bcast"), heap("GF.clock"), heap("GF.lockedAt"), heap("GF.readAt"), heap("GF.doneAt"), heap("GF.doneSeen"), heap("GF.nlog"), heap("GF.armed")
